@@ -1,11 +1,11 @@
 CONSTANTS
   NameSeq <- N3
-  Cidrs <- Fam3
+  Cidrs <- Fam2
   BlockSpots <- Spots1
   CidrOverlap <- TabOverlap
   CidrCovers <- TabCovers
   MaxFail = 1
-  Ties = TRUE
+  Ties = FALSE
 INIT IInit
 NEXT INext
 INVARIANTS TypeOK RefinesP RefinesPF Idempotent TrueNeverOverlaps
